@@ -780,6 +780,20 @@ fn check_queries<F: Float>(
             ))
         }
     };
+    // the target buffer of `predict_inplace` is an output: stale labels in it (here the largest
+    // valid label everywhere) must not influence the result
+    let reuse = with_layout(&qf, qlayout, |v| {
+        guarded(|| {
+            let mut buf = Array1::<usize>::from_elem(nq, k.saturating_sub(1));
+            linfa::traits::PredictInplace::predict_inplace(m, &v, &mut buf);
+            buf
+        })
+    });
+    match reuse {
+        Ok(buf) => vio!(buf == labels, "C10/predict/inplace-depends-on-the-buffer-content",
+            {"first_difference": buf.iter().zip(labels.iter()).position(|(a, b)| a != b), "k": k}),
+        Err(msg) => return Err(violated("C10/predict/panic", json!({"panic": msg, "call": "predict_inplace into a used buffer"}))),
+    }
     vio!(proba.dim() == (nq, k), "C10/proba/shape-mismatch", {"dim": format!("{:?}", proba.dim()), "expected": [nq, k]});
     vio!(labels.len() == nq, "C10/predict/shape-mismatch", {"len": labels.len(), "expected": nq});
     let mut far = 0u64;
